@@ -72,3 +72,23 @@ def report(run, check, items, rejects):
     if items:
         t = items[0]["trace"]
         run.sample({"storage_trace_head": t[:8], "events": len(t), "cfg": items[0].get("cfg")})
+
+
+class _Teardown(BaseException):
+    """what an application framework may raise through user code (not an Exception)"""
+
+
+BLOCK_EXITS = [RuntimeError, RuntimeError, KeyboardInterrupt, SystemExit, GeneratorExit, _Teardown]
+
+
+def failing_block(wr, rng):
+    """Leaves `with wr:` by an exception - an ordinary one, or one of those that are not Exceptions
+    (interrupt, interpreter exit, a closed generator): the block failed all the same, so the writer
+    must cancel and release the lock.  Returns the name of the exception class used."""
+    exc = rng.choice(BLOCK_EXITS)
+    try:
+        with wr:
+            raise exc("boom inside with-block")
+    except exc:
+        pass
+    return exc.__name__
